@@ -13,8 +13,8 @@ type gen struct {
 	p *pools
 }
 
-func ip(v int) *int    { return &v }
-func bp(v bool) *bool  { return &v }
+func ip(v int) *int   { return &v }
+func bp(v bool) *bool { return &v }
 
 // optInt: absent, small, or the extreme of strconv.ParseUint(.., 10, 31).
 func (g *gen) optInt() *int {
@@ -193,7 +193,7 @@ func (g *gen) genFormat(kind string, used map[uint8]bool) (format.Format, bool) 
 	case "vorbis":
 		return &format.Vorbis{PayloadTyp: pt, SampleRate: g.rate(), ChannelCount: g.channels(), Configuration: g.bytes(r.IntN(40))}, true
 	case "mpeg4audio":
-		f := &format.MPEG4Audio{PayloadTyp: pt, ProfileLevelID: pick(r, []int{0, 1, 2, 15, 1<<31 - 1}), Config: genASC(r),
+		f := &format.MPEG4Audio{PayloadTyp: pt, ProfileLevelID: pick(r, []int{1, 2, 15, 1<<31 - 1}), Config: genASC(r),
 			SizeLength: pick(r, []int{1, 6, 13, 100}), IndexLength: pick(r, []int{0, 0, 3, 100}), IndexDeltaLength: pick(r, []int{0, 0, 3, 100})}
 		return f, true
 	case "latm":
